@@ -14,7 +14,7 @@ import (
 
 // Shared harness support files live in harness/commonmark and are injected into
 // both packages (package clause rewritten for format).
-var sharedFiles = map[string]bool{"api_sym.go": true, "api_native.go": true, "replay_test.go": true}
+var sharedFiles = map[string]bool{"api_sym.go": true, "api_native.go": true, "replay_test.go": true, "gen.go": true, "shared_util.go": true}
 
 const (
 	pkgCM  = "zombiezen.com/go/commonmark"
